@@ -476,7 +476,8 @@ def run(prop: str, tier: str, seed: int) -> int:
             desc = it.meta.get("body") or it.meta.get("attr")
             if it.expect == "reject":
                 sig = "%s|accepted|%s|%s" % (prop, key, desc[:120])
-                summary = "expected a compile error but the item compiles (confirmed alone): %s %s" % (
+                summary = ("rejected only when expanded after other items of its batch; " if r.get("batch_only_reject") else "") + \
+                    "expected a compile error but the item compiles (confirmed alone): %s %s" % (
                     it.meta.get("attr", ""), it.meta.get("body", ""))
             else:
                 sig = "%s|rejected|%s|%s" % (prop, key, desc[:120])
@@ -502,6 +503,7 @@ def run(prop: str, tier: str, seed: int) -> int:
             "expected_accept_and_accepted": accepted_expected,
             "control_copies_compiled": controls,
             "verdicts_from_isolated_recompilation": confirmed_alone,
+            "batch_rejected_items_rebuilt_alone": getattr(g, "reject_sample_alone", 0),
             "items_per_operator": ops,
             "rustc_processes_with_expansions": g.rustc_processes,
             "cargo_s": round(g.secs, 1),
